@@ -8,27 +8,35 @@ def run(ctx):
     T = ctx.thorough
     tmo = 900 if T else 100
     obs = [
-        Ob('gzip', 'ob_gzip', 'kind: int, body_i: int, ctype_i: int, q: int, browser_i: int, comp_rel: int, pre_encoded: bool',
-           pre=['0 <= kind <= 8', '0 <= body_i <= 3', '0 <= ctype_i <= 2', '0 <= q <= 1', '0 <= browser_i <= 2', '-2 <= comp_rel <= 1'],
-           cells=[('kind%d_body%d' % (k, b), ['kind == %d' % k, 'body_i == %d' % b]) for k in range(9) for b in range(4 if k in (0, 1, 2, 3, 8) else 1)],
-           timeout=tmo, twin_fn='tw_gzip', twin_pre=['kind == 0', 'body_i == 2'], confirm='confirm_gzip',
+        Ob('gzip', 'ob_gzip', '',
+           packed=[('kind', 9), ('body_i', 4), ('ctype_i', 3), ('q', 2), ('browser_i', 3), ('comp_rel', 4), ('pre_encoded', 2, 'bool')],
+           cells=[('kind%d_body%d' % (k, b), [{'kind': k, 'body_i': b}]) for k in range(9) for b in range(4 if k in (0, 1, 2, 3, 8) else 1)],
+           timeout=tmo, twin_fn='tw_gzip', twin_pre=[{'kind': 0, 'body_i': 2}], confirm='confirm_gzip',
            desc='GzipMiddleware.request: status kept, compresses only for accepting clients, bytes sent == compressor output, '
                 'Content-Length == len(sent), Vary names Accept-Encoding; otherwise body untouched; no exception for HTTPException results'),
-        Ob('passthrough', 'ob_passthrough', 'mw_i: int, kind: int, raised: bool, method_i: int, cookie_i: int',
-           pre=['0 <= mw_i <= 9', '0 <= kind <= 9', '0 <= method_i <= 2', '0 <= cookie_i <= 2'],
-           cells=[('mw%d_kind%d' % (m, k), ['mw_i == %d' % m, 'kind == %d' % k] + ([] if m == 4 else ['cookie_i == 0']))
-                  for m in range(10) for k in range(10)],
-           timeout=tmo, twin_fn='tw_passthrough', twin_pre=['mw_i == 2', 'kind == 4'], confirm='confirm_passthrough',
-           desc='each of the 10 built-in middlewares (default config), real Request: returns next()\'s object with the same status and '
-                'decoded body, or re-raises the very exception next() raised; next() outcome in {Response 200/404/301/500, returned '
-                '404/405/500/non-breaking 403, streamed, raised HTTPException, raised ValueError}'),
+        Ob('passthrough', 'ob_passthrough', '',
+           packed=[('mw_i', 10), ('kind', 10), ('cookie_i', 3), ('qs_i', 7), ('raised', 2, 'bool'), ('method_i', 3)],
+           cells=[('mw%d_kind%d' % (m, k), [{'mw_i': m, 'kind': k}]) for m in range(10) for k in range(10)],
+           timeout=tmo, twin_fn='tw_passthrough', twin_pre=[{'mw_i': 2, 'kind': 4}], confirm='confirm_passthrough',
+           desc='each of the 10 built-in middlewares (default config), real Request (3 methods x 3 cookie values x 7 query strings): returns '
+                'next()\'s object with the same status and decoded body, or re-raises the very exception next() raised; next() outcome in '
+                '{Response 200/404/301/500, returned 404/405/500/non-breaking 403, streamed, raised HTTPException, raised ValueError}'),
     ]
-    if T:
-        obs.append(Ob('end_to_end', 'ob_end_to_end', 'mw_i: int, path_i: int, method_i: int, gzip_ok: bool',
-                      pre=['0 <= mw_i <= 9', '0 <= path_i <= 8', '0 <= method_i <= 2'],
-                      cells=[('mw%d_path%d' % (m, p), ['mw_i == %d' % m, 'path_i == %d' % p]) for m in range(10) for p in range(9)],
-                      timeout=tmo, desc='scenario application with vs without the middleware through the WSGI client: same status and decoded body'))
     res = run_obligations('C15', 'harness.c15', obs, ctx.tier)
+    # validation leg: the scenario application with vs without each middleware through the WSGI client (plain runs)
+    from concurrent.futures import ProcessPoolExecutor
+    import harness.c15 as H
+    from vlib.common import write_replay
+    with ProcessPoolExecutor(max_workers=10) as ex:
+        for n, bad in ex.map(H.end_to_end_sweep, range(10)):
+            res.traces_validated += n
+            for b in bad[:3]:
+                pl = dict(property='C15', obligation='end_to_end', module='harness.c15', fn='ob_end_to_end', post='_', raises=[],
+                          args=', '.join(repr(x) for x in b), confirm='confirm_end_to_end')
+                p = write_replay('C15', 'end_to_end', pl)
+                if len(res.violations) < 12:
+                    res.violations.append(dict(name='end_to_end', args=b, how='scenario application with vs without middleware %d differs for (path, method, gzip, query, accept) = %r' % (b[0], b[1:]), replay=p))
+    res.notes.append('end-to-end differential sweep: 11 routes x 3 methods x gzip on/off x 7 query strings x 4 Accept headers per middleware (validation leg, plain executions)')
     res.functions_encoded += ['GzipMiddleware.request', 'HTTPCacheMiddleware.request', 'StatsMiddleware.request', 'SimpleProfileMiddleware.request',
                               'SignedCookieMiddleware.request', 'ContextProcessor process_render_context', 'GetParamMiddleware.request',
                               'PostDataMiddleware.request', 'ScriptRootMiddleware.request']
